@@ -663,6 +663,100 @@ pub fn check_case(case: &Case, ctx: &mut Ctx) -> Verdict {
             }
         }
     }
+    // metamorphic completeness: an unrelated switch of the active level (a field of its own,
+    // not given yet) written just before the typed word changes nothing but its own row
+    if case.clean_prefix && !dangling && !via_hidden_command && tvalue.is_none() {
+        let level = *active.last().unwrap();
+        let mut has_adjacent = false;
+        level.body.walk(false, &mut |n| match n {
+            Node::Adjacent(_) => has_adjacent = true,
+            Node::Cmd(c) if c.adjacent => has_adjacent = true,
+            _ => {}
+        });
+        let direct_fields: Vec<&Node> = match &level.body {
+            Node::Seq(xs) => xs.iter().collect(),
+            other => vec![other],
+        };
+        let sw = direct_fields.iter().find_map(|f| match f {
+            Node::Named(x) if x.kind == NamedKind::Switch => {
+                let given = case.prefix.iter().any(|it| {
+                    let s = String::from_utf8_lossy(it).into_owned();
+                    x.longs.iter().any(|y| format!("--{}", y) == s)
+                        || x.shorts.iter().any(|y| format!("-{}", y) == s)
+                });
+                if given {
+                    None
+                } else {
+                    Some(x)
+                }
+            }
+            _ => None,
+        });
+        if let (Some(x), false) = (sw, has_adjacent) {
+            let name = preferred(x);
+            let mut argv2 = case.prefix.clone();
+            argv2.push(name.clone().into_bytes());
+            argv2.push(case.typed.clone().into_bytes());
+            let out2 = run_cfg(
+                &parser,
+                &argv2,
+                &RunCfg {
+                    name: None,
+                    comp: Some(0),
+                },
+            );
+            ctx.eval(1);
+            ctx.class("unrelated-switch-probe");
+            if let Outcome::Completion(t2) = &out2 {
+                let p2 = parse_rev0(t2);
+                // names of enclosing levels come and go with the depth of the deepest hint
+                // (they are allowed, not required): compare what belongs to the active level
+                let own_names: Vec<String> = level
+                    .body
+                    .named_leaves(false)
+                    .iter()
+                    .map(|l| preferred(l))
+                    .collect();
+                let mine = |r: &(String, String, String, String)| -> bool {
+                    r.0 != name && (!r.0.starts_with('-') || own_names.iter().any(|n| r.0.starts_with(n.as_str())))
+                };
+                let rows = |p: &Parsed| -> Vec<String> {
+                    let mut v: Vec<String> = p
+                        .rows
+                        .iter()
+                        .filter(|r| mine(r))
+                        .map(|r| format!("{}|{}", r.0, r.1))
+                        .collect();
+                    v.sort();
+                    v.dedup();
+                    v
+                };
+                let (r1, r2) = (rows(&parsed), rows(&p2));
+                // a lone row is printed in another format: compare candidates only then
+                let same = r1 == r2
+                    || (parsed.rows.len() <= 2 || p2.rows.len() <= 2) && {
+                        let c = |p: &Parsed| -> Vec<String> {
+                            let mut v: Vec<String> =
+                                p.rows.iter().filter(|r| mine(r)).map(|r| r.0.clone()).collect();
+                            v.sort();
+                            v.dedup();
+                            v
+                        };
+                        c(&parsed) == c(&p2)
+                    };
+                if !same {
+                    return fail(
+                        "candidates-change-after-an-unrelated-switch",
+                        format!(
+                            "with {} written before the typed word the candidates are {:?}, without it {:?}\ncompletion output with it:\n{}",
+                            name, r2, r1, t2
+                        ),
+                    );
+                }
+            }
+        }
+    }
+
     // completeness for a freshly typed command prefix: the active level takes no positional, the
     // commands are a field of their own (alone, or a choice between commands only), none of them
     // has been entered (the active level is the innermost one) and the previous item is not an
